@@ -417,9 +417,13 @@ class Ctx:
         self.obligs = []
         self.env = {}  # unit-level named values (params, lets)
         self.feas_unknown = 0
+        self.n_fresh = 0
+        self.prologue_fresh = None  # number of fresh symbols created before the body ran (the symbolic pre-state)
 
     def fresh(self, name, sort):
-        return z3.Const(f"{name}!{next(self._ctr)}", sort)
+        k = next(self._ctr)
+        self.n_fresh = k + 1
+        return z3.Const(f"{name}!{k}", sort)
 
     def assume(self, f):
         if isinstance(f, bool):
